@@ -161,6 +161,7 @@ class Inc:
         self.first_io = None     # position of the first read / write call on this incarnation
         self.touched = False     # accepted socket: closed / re-opened between the accept call and its handler
         self.ambiguous = False   # connector: another pending connect shows the same visible endpoint at the same acceptor address
+        self.concurrent = False  # several reads outstanding at once: the order in which they consumed the stream is not the trace order
         # accepted
         self.completion = None
 
@@ -203,6 +204,7 @@ class Sock:
         self.node = node; self.open_fam = None; self.bound = None; self.bound_arg = None
         self.inc = None; self.pending_accept = 0
         self.conn_fam6 = None          # family the socket was implicitly opened / bound with by an earlier connect
+        self.reads_out = 0             # asynchronous reads / read-waits posted and not completed
         self.limbo = []                # I/O started while an accept into this object is pending (it may already be connected)
         self.touched = False           # closed / re-opened while an accept into this object is pending
         self.after_refusal = None      # the refused Inc while no new connection was started on the object
@@ -223,7 +225,6 @@ class Analysis:
         self.refusal_queries = []    # (inc, what, result, pos)
         self.refusal_io = []         # (inc, op kind, n, pos)
         self.udp = {}; self.udp_sends = []; self.udp_recvs = []
-        self.reopened = {}           # acceptor name -> positions of open() calls on the still open acceptor (outside the statement)
         self.notes = []
 
 
@@ -285,6 +286,8 @@ def _walk(an, impl):
                 if o is not None: an.double.append((o, pos))
                 continue
             op.done.append((ec, now, pos))
+            if op.kind in ("read", "wait_read") and getattr(op, "sockrec", None) is not None:
+                op.sockrec.reads_out = max(0, op.sockrec.reads_out - 1)
             if op.kind == "connect":
                 inc = op.inc
                 if inc is not None:
@@ -311,6 +314,7 @@ def _walk(an, impl):
                         # what the program did on the object between the accept call and this handler was done on
                         # the new connection if it was established by then
                         for item in s.limbo:
+                            if s.reads_out > 1: inc.concurrent = True
                             if item[0] == "op":
                                 item[1].inc = inc
                                 if inc.first_io is None: inc.first_io = item[1].pos
@@ -439,6 +443,9 @@ def _walk(an, impl):
                 h = optk[1] if len(optk) > 1 else "?"
                 o = new_op(m, h, []); o.inc = s.inc
                 if s.inc is not None and s.inc.first_io is None: s.inc.first_io = pos
+                if m in ("read", "wait_read"):
+                    if s.reads_out > 0 and s.inc is not None: s.inc.concurrent = True
+                    s.reads_out += 1; o.sockrec = s
                 if s.inc is None and s.pending_accept > 0: s.limbo.append(("op", o))
                 o.refused = s.after_refusal if (s.after_refusal is not None and s.inc is s.after_refusal) else None
                 o.excuse = s.pending_accept > 0
@@ -446,6 +453,7 @@ def _walk(an, impl):
                 try: n = int(rd.get("n", "0"))
                 except ValueError: n = 0
                 if s.inc is not None and s.inc.first_io is None: s.inc.first_io = pos
+                if s.reads_out > 0 and s.inc is not None: s.inc.concurrent = True
                 if n > 0:
                     rec = (n, "data" if "data" in rd else "sum", rd.get("data", rd.get("sum", "")), pos, "C %s %s" % (ctx, optk[0]))
                     if s.inc is not None: s.inc.reads.append(rec)
@@ -473,13 +481,9 @@ def _walk(an, impl):
                 b = AccInc(a.name, a.node); accs[a.name] = b; an.accs.append(b); return b
             if m == "open":
                 if r0 == "ok":
+                    # (re-)opening closes the acceptor first, as an acceptor: not bound, not listening, queue discarded
                     a.closes.append(pos)
-                    was = a.listening
-                    if a.open: an.reopened.setdefault(name, []).append(pos)
-                    a = fresh(a); a.open = True
-                    # re-opening an acceptor that was never closed: whether it still listens is not
-                    # something the statement speaks about
-                    a.listening = None if was else False
+                    a = fresh(a); a.open = True; a.listening = False
             elif m == "bind":
                 if r0 == "ok" and len(optk) > 1:
                     arg = parse_ep(optk[1]); rep = parse_ep(rd.get("local", ""))
